@@ -447,7 +447,7 @@ fn capi_case(m: &mut C03, idx: u64, obs: &mut Obs) {
         let mut ptrs: Vec<(*mut Xstate, Vec<(&'static str, String)>)> = vec![];
         let st = full_state(&mut *root, false);
         ptrs.push((root, st));
-        let n = 4 + rng.below(10);
+        let n = if small() { 3 + rng.below(3) } else { 4 + rng.below(10) };
         for step in 0..n {
             let i = rng.below(ptrs.len());
             let p = ptrs[i].0;
